@@ -131,6 +131,23 @@ func runC14(c *Ctx) {
 		if len(appends) == 0 {
 			r.Undecided("C14.2", "anchor:appends", c.U.Pos(inj.Pos()), "no call to (*ContainerEdits).Append in InjectDevices")
 		}
+		// equal requests give equal results: the edits are accumulated in an order that is a
+		// function of the request, never in the iteration order of a map
+		mapOrdered := 0
+		for _, l := range ir.Loops(inj) {
+			if _, isMap := l.Over.Type().Underlying().(*types.Map); !isMap {
+				continue
+			}
+			for _, call := range appends {
+				if l.BodyBlocks()[call.(ssa.Instruction).Block()] {
+					mapOrdered++
+					r.Violation("C14.2", "order-from-map:"+c.pos(call), c.pos(call), "edits are appended inside a loop over a map ("+c.valueDesc(l.Over)+"): their order in the result changes from call to call")
+				}
+			}
+		}
+		if mapOrdered == 0 && len(appends) > 0 {
+			r.OK("C14.2", "order-from-request", c.U.Pos(inj.Pos()), fmt.Sprintf("none of the %d Append calls runs inside a loop over a map: the order of the combined edits is determined by the request", len(appends)))
+		}
 		for i, call := range appends {
 			recv := call.Common().Args[0]
 			fresh := true
